@@ -113,6 +113,14 @@ def Bytes.rdBE32 (d : Bytes) (lo hi : Nat) : Res UInt32 :=
      | _ => .panic "index out of range")
   else .panic "slice bounds out of range"
 
+/-- `binary.BigEndian.Uint64(d[lo:hi])` -/
+def Bytes.rdBE64 (d : Bytes) (lo hi : Nat) : Res UInt64 :=
+  if lo ≤ hi ∧ hi ≤ d.length then
+    (match (d.take hi).drop lo with
+     | a :: b :: c :: e :: f :: g :: h :: i :: _ => .ok (rd64 a b c e f g h i)
+     | _ => .panic "index out of range")
+  else .panic "slice bounds out of range"
+
 /-- `a <<< k ||| b = a * 2^k + b` when `b < 2^k` -/
 theorem shl_or (a b k : Nat) (hb : b < 2 ^ k) : a <<< k ||| b = a * 2 ^ k + b := by
   rw [← Nat.shiftLeft_add_eq_or_of_lt hb, Nat.shiftLeft_eq]
